@@ -29,6 +29,9 @@ import (
 var (
 	repoDir  = envOr("GOSYM_REPO", "/repo")
 	verifDir = envOr("GOSYM_VERIF", "/verif")
+	// outDir receives evidence/ and replays/; mutation runs against scratch copies set GOSYM_OUT so that the
+	// committed evidence of /repo is never overwritten by them.
+	outDir = envOr("GOSYM_OUT", verifDir)
 )
 
 func envOr(k, d string) string {
